@@ -639,8 +639,9 @@ def canonical():
     progs = [
         [{"op": "finish"}, {"op": "state", "label": "after"},
          {"op": "digest", "table": "public", "label": "public"}],
+        # the digest itself reads every atom of every group: taking it twice shows values that depend on what was read before
         [{"op": "finish"}] + [ev(n) for n in names]
-        + [{"op": "digest", "table": "public", "label": "public"}],
+        + [{"op": "digest", "table": "public", "label": "public"}, {"op": "digest", "table": "public", "label": "public_again"}],
     ]
     a, b = run_many(progs, full=True)
     if "crash" in a or "crash" in b:
@@ -651,7 +652,8 @@ def canonical():
     _CANON["state"] = a["states"]["after"]
     _CANON["values"] = dict(zip(names, b["results"]))
     # evaluating every event after the canonical load must itself leave the digest unchanged
-    _CANON["values_digest_ok"] = (b["digests"]["public"]["hash"] == _CANON["hash"])
+    _CANON["values_digest_ok"] = (b["digests"]["public"]["hash"] == _CANON["hash"]
+                                   and b["digests"]["public_again"]["hash"] == _CANON["hash"])
     return _CANON
 
 
